@@ -269,8 +269,13 @@ func keyRoles(args []string) (reads, writes, both, chans []string) {
 		}
 		return nil, ks, nil, nil
 	}
-	if sp := specByName[name]; sp != nil && !sp.Write {
+	sp := specByName[name]
+	if sp != nil && !sp.Write {
 		return ks, nil, nil, nil
+	}
+	if sp == nil {
+		// a command the harness has no description of: its keys may be read, written or both ("maybe")
+		return nil, nil, append([]string{"?"}, ks...), nil
 	}
 	// read-modify-write commands (INCR, APPEND, LPUSH, HSET, SADD, ZADD, EXPIRE, ...)
 	return nil, nil, ks, nil
@@ -327,14 +332,26 @@ func (u *c06User) decide(args []string, cats []string) (int, string) {
 				return -1, "write key " + k + " not permitted"
 			}
 		}
+		maybe := len(both) > 0 && both[0] == "?"
+		if maybe {
+			both = both[1:]
+		}
 		for _, k := range both {
 			r, w := matchAny(u.readGlobs, k), matchAny(u.writeGlobs, k)
 			if len(u.readGlobs) == 0 || len(u.writeGlobs) == 0 {
 				abstain = true
-			} else if !r && !w {
-				return -1, "key " + k + " neither readable nor writable"
-			} else if r != w {
-				abstain = true
+			} else if maybe {
+				if !r && !w {
+					return -1, "key " + k + " neither readable nor writable"
+				} else if r != w {
+					abstain = true
+				}
+			} else if !w {
+				// the command modifies this key (read-modify-write, or the source of a move/rename, which is removed):
+				// "every key it writes under the write patterns" - whatever it also needs for reading it
+				return -1, "key " + k + " is written by the command but not writable"
+			} else if !r {
+				abstain = true // writable but not readable: whether the read half needs the read pattern is not defined
 			}
 		}
 		if abstain {
